@@ -606,6 +606,20 @@ fn scenario(seed: u64, mode_thorough: bool, trace: bool, descr: &mut String) -> 
 									&& w.owner.get(by) != Some(&n);
 								if f1 {
 									findings.insert("F1-stale-holder-htlc-timeout-after-counterparty-claim".to_string());
+								} else if n == c && !cfg.prev && i.previous_output.txid == ctxid
+									&& htlc_by_vout.contains_key(&i.previous_output.vout)
+									&& htlcs.iter().any(|h| matches!(h.know, Know::After(_)) && h.claim_tried && 1 - h.from == n)
+									&& std::env::var("C07_EXPLORE_TOLERATE_STALE").is_err()
+								{
+									// Known behaviour F3 (see known_findings.json): a preimage provided after the
+									// node's own commitment confirmed makes the monitor re-request every HTLC
+									// claim of that commitment, including outputs whose spend it already saw
+									// mature; with anchors they are aggregated with the fresh claim into a
+									// transaction that can never confirm. Nothing more can be judged here.
+									return Err(Fail { why: "KNOWN:F3-late-preimage-on-holder-commitment-reclaims-resolved-htlcs".to_string(),
+										detail: format!("node {} tx {} input {} spent by {} at {} (now {})", n, &txid.to_string()[..8], short(&i.previous_output), &by.to_string()[..8], h, w.height) });
+								} else if std::env::var("C07_EXPLORE_TOLERATE_STALE").is_ok() {
+									findings.insert("explore-stale".to_string());
 								} else {
 									return fail(
 										"(b) broadcast spends an output whose spend the node saw confirm in an earlier block",
@@ -725,7 +739,9 @@ fn scenario(seed: u64, mode_thorough: bool, trace: bool, descr: &mut String) -> 
 					let entitled = if h.from == n { w.height >= h.expiry } else { knows[n].contains(&h.hash) };
 					if entitled {
 						let covered = w.mempool.iter().any(|m| m.owner == n && m.tx.input.iter().any(|i| i.previous_output == op) && w.valid_now(&m.tx));
-						if !covered {
+						if !covered && std::env::var("C07_EXPLORE_TOLERATE_STALE").is_ok() {
+							findings.insert(format!("explore-uncovered-htlc-{}", hi));
+						} else if !covered {
 							return fail(
 								"(a) an output the node is entitled to is not being claimed",
 								format!("node {} htlc {} ({}) {} expiry {} height {} commitment confirmed at {}", n, hi, if h.from == n { "outbound" } else { "inbound, preimage known" }, short(&op), h.expiry, w.height, ch),
@@ -1043,6 +1059,10 @@ fn run_one(seed: u64, thorough: bool, trace: bool) -> String {
 			"R {{\"seed\":{},\"tier\":\"{}\",\"ok\":true,\"cfg\":{},\"stats\":{{\"blocks\":{},\"broadcasts\":{},\"claims_confirmed\":{},\"replacements\":{},\"bumps\":{},\"spendable_events\":{},\"bump_events\":{},\"htlc_outputs\":{},\"lost_to_counterparty\":{},\"spend_checked\":{},\"findings\":[{}]}}}}",
 			seed, tier, descr, st.blocks, st.broadcasts, st.claims_confirmed, st.replacements, st.bumps, st.spendable_events, st.bump_events, st.htlc_outputs, st.lost_to_counterparty, st.spend_checked,
 			st.findings.iter().map(|f| jstr(f)).collect::<Vec<_>>().join(",")
+		),
+		Ok(Err(f)) if f.why.starts_with("KNOWN:") => format!(
+			"R {{\"seed\":{},\"tier\":\"{}\",\"ok\":true,\"aborted\":true,\"cfg\":{},\"stats\":{{\"findings\":[{}]}},\"detail\":{}}}",
+			seed, tier, descr, jstr(&f.why[6..]), jstr(&f.detail)
 		),
 		Ok(Err(f)) => format!(
 			"R {{\"seed\":{},\"tier\":\"{}\",\"ok\":false,\"why\":{},\"detail\":{},\"cfg\":{}}}",
